@@ -1006,6 +1006,302 @@ open FV FV.W
 '''
 
 
+
+# ------------------------------------------------------------------------------------------------
+# tables: `match` functions of ast.rs / permission.rs / scheme/target_scheme.rs whose arms are constants
+# ------------------------------------------------------------------------------------------------
+def split_arms(toks):
+    """toks = tokens between the braces of a `match`: list of (patterns, rhs) with patterns a list of token lists."""
+    arms, i = [], 0
+    while i < len(toks):
+        # patterns up to '=>'
+        j, depth = i, 0
+        while not (toks[j].v == '=>' and depth == 0):
+            if toks[j].k == 'p' and toks[j].v in OPEN: depth += 1
+            if toks[j].k == 'p' and toks[j].v in CLOSE: depth -= 1
+            j += 1
+        pat_toks = toks[i:j]
+        pats, cur, depth = [], [], 0
+        for t in pat_toks:
+            if t.k == 'p' and t.v in OPEN: depth += 1
+            if t.k == 'p' and t.v in CLOSE: depth -= 1
+            if t.k == 'p' and t.v == '|' and depth == 0:
+                pats.append(cur); cur = []
+            else: cur.append(t)
+        pats.append(cur)
+        # rhs: up to the comma at depth 0; an arm whose expression ends in a block needs no comma
+        k, n = j + 1, len(toks)
+        while k < n:
+            t = toks[k]
+            if t.k == 'p' and t.v in OPEN:
+                k = match_close(toks, k) + 1
+                if toks[k - 1].v == '}' and (k >= n or toks[k].v not in ('.', ',', '?')):
+                    break
+                continue
+            if t.k == 'p' and t.v == ',':
+                break
+            k += 1
+        rhs = toks[j + 1:k]
+        i = k + 1 if k < n and toks[k].v == ',' else k
+        arms.append((pats, rhs))
+    return arms
+
+
+def lean_pattern(pat):
+    """Rust pattern `A::B`, `A::B(_)`, `A::B(x)`, `A::B(_, _)` -> (Lean pattern, bound variables)."""
+    txt = text_of(pat)
+    m = re.fullmatch(r'(\w+) :: (\w+)(?: \( (.*) \))?', txt)
+    if not m: raise Untranslatable('pattern ' + txt)
+    c = ctor([m.group(1), m.group(2)])
+    if not c: raise Untranslatable('pattern constructor ' + txt)
+    c = '.' + c.split('.', 1)[1]
+    args = [a.strip() for a in m.group(3).split(',')] if m.group(3) else []
+    args = [a for a in args if a]
+    for a in args:
+        if not re.fullmatch(r'\w+', a): raise Untranslatable('pattern argument ' + txt)
+    return (c + ''.join(' ' + a for a in args), [a for a in args if a != '_'])
+
+
+def flag_consts(repo):
+    """`mod values` of permission_flags.rs: name -> value."""
+    toks = tokenize(open(os.path.join(repo, 'src', 'permission_flags.rs')).read())
+    out = {}
+    for i, t in enumerate(toks):
+        if t.k == 'id' and t.v == 'const' and toks[i + 1].k == 'id' and toks[i + 2].v == ':' and toks[i + 4].v == '=' and toks[i + 5].k == 'num':
+            out[toks[i + 1].v] = int(toks[i + 5].v.replace('_', '').replace('0o', ''), 8) if toks[i + 5].v.startswith('0o') else int(toks[i + 5].v)
+    return out
+
+
+def flags_value(rhs, consts):
+    """`Mode::A | Mode::B | SFlag::C` -> number, or None."""
+    txt = text_of(rhs)
+    parts = txt.split(' | ')
+    v = 0
+    for p_ in parts:
+        m = re.fullmatch(r'(Mode|SFlag) :: (\w+)', p_.strip())
+        if not m or m.group(2) not in consts: return None
+        v |= consts[m.group(2)]
+    return v
+
+
+def string_rhs(rhs):
+    """`"x"`, `"x".to_string()`, `String::from("x")`, `"x".to_owned()` -> the string, else None."""
+    txt = [t for t in rhs]
+    if len(txt) == 1 and txt[0].k == 'str': return txt[0].v
+    if len(txt) == 5 and txt[0].k == 'str' and text_of(txt[1:]) in ('. to_string ( )', '. to_owned ( )'): return txt[0].v
+    if len(txt) == 6 and text_of(txt[:4]) == 'String :: from (' and txt[4].k == 'str' and txt[5].v == ')': return txt[4].v
+    return None
+
+
+def option_text_arm(rhs, bound, model_fn, pat_lean, delegated):
+    """rhs of an arm of a function into strings (None = refused) -> Lean `Option Text` term."""
+    s_ = string_rhs(rhs)
+    if s_ is not None:
+        return 'some (%s)' % lean_cl(s_) if s_ else 'some []'
+    txt = text_of(rhs)
+    if txt.startswith('return Err (') or txt.startswith('{ return Err ('):
+        return 'none'
+    # match c { '@' => "x", _ => "y" }   (possibly followed by .to_string())
+    if rhs and rhs[0].v == 'match' and rhs[1].k == 'id' and rhs[1].v in bound and rhs[2].v == '{':
+        e = match_close(rhs, 2)
+        rest = text_of(rhs[e + 1:])
+        if rest in ('', '. to_string ( )'):
+            arms = split_arms(rhs[3:e])
+            if len(arms) == 2 and len(arms[0][0]) == 1 and len(arms[0][0][0]) == 1 and arms[0][0][0][0].k == 'chr' \
+                    and text_of(arms[1][0][0]) in ('_',):
+                a, b = string_rhs(arms[0][1]), string_rhs(arms[1][1])
+                if a is not None and b is not None:
+                    return 'if %s = %s then some (%s) else some (%s)' % (rhs[1].v, lean_char(arms[0][0][0][0].v), lean_cl(a), lean_cl(b))
+    # anything else: the hand-written model's arm, fingerprinted by its token text
+    delegated.append(txt)
+    return '%s (%s)' % (model_fn, pat_lean)
+
+
+def find_match(body, scrut):
+    """index range (start of arms, end) of `match <scrut> {` in body."""
+    for i in range(len(body) - 2):
+        if body[i].k == 'id' and body[i].v == 'match' and text_of(body[i + 1:i + 2]) == scrut and body[i + 2].v == '{':
+            return i + 3, match_close(body, i + 2)
+    raise Untranslatable('no match on ' + scrut)
+
+
+# delegated arms: the token text the model's arm was transcribed from
+TABLE_DELEGATED = {
+    'literal': ["{ template_escape ( & char :: from_u32 ( * val as u32 ) . unwrap_or ( '0' ) . to_string ( ) ) }"],
+    'snippet': [
+        "match f { '@' => \"atime\" . to_string ( ) , f => format ! ( \"strftime \\\"%{}\\\" (localtime (atime))\" , scheme_escape ( & f . to_string ( ) ) ) , } . to_string ( )",
+        "match f { '@' => \"ctime\" . to_string ( ) , f => format ! ( \"strftime \\\"%{}\\\" (localtime (ctime))\" , scheme_escape ( & f . to_string ( ) ) ) , }",
+        "match f { '@' => \"mtime\" . to_string ( ) , f => format ! ( \"strftime \\\"%{}\\\" (localtime (mtime))\" , scheme_escape ( & f . to_string ( ) ) ) , }",
+        "{ format ! ( \"or (xattr-ref-string \\\"{}\\\") \\\"\\\"\" , scheme_escape ( attr ) ) . to_owned ( ) }",
+    ],
+}
+SNIPPET_TAIL = '; Ok ( ( ! snippet . is_empty ( ) ) . then ( move || format ! ( "({})" , snippet ) ) )'
+
+
+def translate_tables(repo):
+    out, report = [], {'translated': [], 'untranslated': {}, 'delegated_arms': {}}
+    consts = flag_consts(repo)
+    srcs = {}
+    def items_of(rel):
+        if rel not in srcs:
+            srcs[rel] = {it.key: it for it in extract_items(os.path.join(repo, 'src', rel))}
+        return srcs[rel]
+
+    def emit(name, key, rel, fn):
+        try:
+            it = items_of(rel).get(key)
+            if it is None: raise Untranslatable('item not found')
+            out.append('/-- `%s` (%s) -/' % (key, rel))
+            out.append(fn(it) + '\n')
+            report['translated'].append(key)
+        except (Untranslatable, PErr, KeyError, IndexError, ValueError, AssertionError) as e:
+            report['untranslated'][key] = '%s: %s' % (type(e).__name__, str(e)[:300])
+            out.append('-- UNTRANSLATED %s: %s' % (key, str(e).replace('\n', ' ')[:300]))
+
+    def numeric_table(lean_name, ty, scrut='self'):
+        def f(it):
+            a, b = find_match(it.body, scrut)
+            rows = []
+            for pats, rhs in split_arms(it.body[a:b]):
+                val = flags_value(rhs, consts)
+                if val is None:
+                    if not all(t.k == 'num' or (t.k == 'p' and t.v == '*') for t in rhs): raise Untranslatable('arm value ' + text_of(rhs))
+                    val = ' '.join(t.v.replace('_', '') for t in rhs)
+                rows.append('  | %s => %s' % (' | '.join(lean_pattern(p_)[0] for p_ in pats), val))
+            return 'def %s : %s → Nat\n%s' % (lean_name, ty, '\n'.join(rows))
+        return f
+    emit('Size.mult', 'Size::mult', 'ast.rs', numeric_table('sizeMult', 'Size'))
+    emit('TimeSpec.secs', 'TimeSpec::secs', 'ast.rs', numeric_table('timeSecs', 'TimeSpec'))
+    emit('FileType.octal', 'FileType::octal', 'ast.rs', numeric_table('fileTypeOctal', 'FileType'))
+
+    def perm_value(it):
+        a, b = find_match(it.body, 'symbolic')
+        rows, partial = [], False
+        for pats, rhs in split_arms(it.body[a:b]):
+            if len(pats) == 1 and len(pats[0]) == 1 and pats[0][0].k == 'chr':
+                v = flags_value(rhs, consts)
+                if v is None: raise Untranslatable('Permission::value arm ' + text_of(rhs))
+                rows.append((pats[0][0].v, v))
+            elif text_of(pats[0]) == '_' and text_of(rhs) == 'unreachable ! ( )':
+                partial = True
+            else: raise Untranslatable('Permission::value pattern')
+        if not partial: raise Untranslatable('Permission::value default arm')
+        return 'def permValue (c : Char) : Option Nat :=\n  ' + ''.join('if c = %s then some %d else ' % (lean_char(c), v) for c, v in rows) + 'none'
+    emit('permValue', 'Permission::value', 'find_parser/permission.rs', perm_value)
+
+    def option_table(lean_name, ty, scrut, model_fn, key, tail=None):
+        def f(it):
+            body = it.body
+            a, b = find_match(body, scrut)
+            if tail is not None and text_of(body[b + 1:]) != tail:
+                raise Untranslatable('tail changed: ' + text_of(body[b + 1:]))
+            rows, delegated = [], []
+            for pats, rhs in split_arms(body[a:b]):
+                lp = [lean_pattern(p_) for p_ in pats]
+                bound = lp[0][1]
+                if len(lp) > 1 and bound:
+                    # or-pattern binding a variable: one Lean arm per alternative (the bound name is the same)
+                    pass
+                for (pl, bd) in lp:
+                    rows.append('  | %s => %s' % (pl, option_text_arm(rhs, bd, model_fn, pl, delegated)))
+            want = TABLE_DELEGATED.get(key, [])
+            for d in delegated:
+                if d not in want:
+                    raise Untranslatable('arm is neither a constant nor the text the model was transcribed from: ' + d[:200])
+            report['delegated_arms'][key] = len(delegated)
+            return 'def %s : %s → Option Text\n%s' % (lean_name, ty, '\n'.join(rows))
+        return f
+    emit('specialLiteral', 'literal', 'scheme/target_scheme.rs', option_table('specialLiteral', 'FormatSpecial', 'special', 'FV.specialLiteral', 'literal'))
+    emit('placeholder', 'placeholder', 'scheme/target_scheme.rs', option_table('placeholder', 'FormatField', 'field', 'FV.placeholder', 'placeholder'))
+    emit('snippetBody', 'snippet', 'scheme/target_scheme.rs', option_table('snippetBody', 'FormatField', 'field', 'FV.snippetBody', 'snippet', SNIPPET_TAIL))
+
+    # ---- impl TargetScheme for Test: one arm per constructor
+    TEST_DELEGATED = [
+        "{ let offending = | c : char | { \"*?['\" . contains ( c ) } ; let globbing = field . contains ( offending ) || value . contains ( offending ) ; let ( field , value ) = ( scheme_escape ( field ) , scheme_escape ( value ) ) ; if ! globbing { buffer . push_str ( & format ! ( \"(equal? (xattr-ref-string \\\"{field}\\\") \\\"{value}\\\")\" ) ) ; } else { buffer . push_str ( & format ! ( \"(xattr-match? \\\"{field}\\\" \\\"{value}\\\")\" ) ) ; } }",
+        "return Err ( CompileError :: UnsupportedTest ( format ! ( \"{self:?}\" ) ) )",
+    ]
+    HELPERS = {'compile_perm_check': 'compilePermCheck', 'compile_size_comp': 'compileSizeComp', 'compile_type_list_comp': 'compileTypeList'}
+
+    def fmt_text(fmt, args):
+        """format!("..{}..", a, b) with arguments already translated -> Lean text expression."""
+        pieces = fmt.split('{}')
+        if len(pieces) != len(args) + 1: raise Untranslatable('format placeholders')
+        parts = []
+        for k, pc in enumerate(pieces):
+            if pc: parts.append(lean_cl(pc))
+            if k < len(args): parts.append(args[k])
+        return ' ++ '.join(parts) if parts else '[]'
+
+    def test_arm(rhs, bound):
+        txt = text_of(rhs)
+        m = re.fullmatch(r'compile_time_comp \( buffer , ("(?:[^"\\]|\\.)*") , & (\w+) \)', txt)
+        if m and m.group(2) in bound:
+            return 'timeT clk st (%s) %s' % (lean_cl(json.loads(m.group(1))), m.group(2))
+        m = re.fullmatch(r'buffer \. push_str \( ("(?:[^"\\]|\\.)*") \)', txt)
+        if m:
+            return '.ok (%s, st)' % lean_cl(json.loads(m.group(1)))
+        m = re.fullmatch(r'buffer \. push_str \( & format_cmp ! \( (\w+) , ("(?:[^"\\]|\\.)*") \) \)', txt)
+        if m and m.group(1) in bound:
+            return '.ok (formatCmp %s (%s), st)' % (m.group(1), lean_cl(json.loads(m.group(2))))
+        m = re.fullmatch(r'buffer \. push_str \( & format ! \( ("(?:[^"\\]|\\.)*") , ctx \. get_matcher \( (\w+) , (true|false) \) \) \)', txt)
+        if m and m.group(2) in bound:
+            return 'matchT st (fun name => %s) %s %s' % (fmt_text(json.loads(m.group(1)), ['name']), m.group(2), m.group(3))
+        m = re.fullmatch(r'buffer \. push_str \( & format ! \( ("(?:[^"\\]|\\.)*") , scheme_escape \( (\w+) \) \) \)', txt)
+        if m and m.group(2) in bound:
+            return '.ok (%s, st)' % fmt_text(json.loads(m.group(1)), ['schemeEscape %s' % m.group(2)])
+        m = re.fullmatch(r'(\w+) \( buffer , &? ?(\w+) \)', txt)
+        if m and m.group(1) in HELPERS and m.group(2) in bound:
+            return '.ok (%s %s, st)' % (HELPERS[m.group(1)], m.group(2))
+        return None
+
+    def test_compile(it):
+        a, b = find_match(it.body, 'self')
+        if text_of(it.body[b + 1:]) != 'Ok ( ( ) )': raise Untranslatable('tail of Test::compile changed')
+        rows, ndeleg = [], 0
+        for pats, rhs in split_arms(it.body[a:b]):
+            for p_ in pats:
+                pl, bd = lean_pattern(p_)
+                # unused bindings of delegated arms are fine in Lean
+                r = test_arm(rhs, bd)
+                if r is None:
+                    if text_of(rhs) not in TEST_DELEGATED:
+                        raise Untranslatable('arm of Test::compile is neither a known shape nor the text the model was transcribed from: ' + text_of(rhs)[:160])
+                    ndeleg += 1
+                    args = pl.split(' ')[1:]
+                    names = ['a%d' % k for k in range(len(args))]
+                    pl2 = ' '.join([pl.split(' ')[0]] + names)
+                    r = 'FV.compileTest clk (%s) st' % pl2
+                    pl = pl2
+                rows.append('  | %s => %s' % (pl, r))
+        report['delegated_arms']['Test::compile'] = ndeleg
+        return ('def compileTest (clk : Nat → Nat) (t : Test) (st : CState) : CRes (Text × CState) :=\n  match t with\n%s' % '\n'.join(rows))
+    emit('compileTest', 'Test::compile', 'scheme/target_scheme.rs', test_compile)
+    return out, report
+
+
+TABLES_HEADER = """import FindVerif.Model.Compile
+/-
+  GENERATED by tools/rs2lean.py from %s/src/{ast.rs, permission_flags.rs, find_parser/permission.rs,
+  scheme/target_scheme.rs} -- do not edit.  The constant tables of the crate: one Lean match arm per
+  Rust match arm; flag constants are evaluated from `mod values`.  Arms that are not constants refer
+  to the hand-written model (their token text is checked by the translator).
+  FindVerif/TieTables.lean proves each definition equal to the model's.
+-/
+namespace FV.Gen
+open FV
+
+/-- `compile_time_comp(buffer, field, cmp)` as used by `Test::compile`: one clock reading is consumed. -/
+def timeT (clk : Nat → Nat) (st : CState) (field : Text) (c : Comparison TimeSpec) : CRes (Text × CState) :=
+  .ok (compileTimeComp (clk st.reads) field c, { st with reads := st.reads + 1 })
+
+/-- `buffer.push_str(&format!(TEMPLATE, ctx.get_matcher(s, ci)))`. -/
+def matchT (st : CState) (tpl : Text → Text) (s : Text) (ci : Bool) : CRes (Text × CState) :=
+  let (name, m) := st.mgr.getMatcher s ci
+  .ok (tpl name, { st with mgr := m })
+
+"""
+
+
 def main():
     repo, out, rep = '/repo', None, None
     a = sys.argv[1:]
@@ -1017,6 +1313,13 @@ def main():
     lines, report = translate(repo)
     text = HEADER % repo + '\n'.join(lines) + '\nend FV.Gen\n'
     report['sha1'] = hashlib.sha1(text.encode()).hexdigest()
+    tlines, treport = translate_tables(repo)
+    ttext = TABLES_HEADER % repo + '\n'.join(tlines) + '\nend FV.Gen\n'
+    report['tables'] = treport
+    if out:
+        tout = os.path.join(os.path.dirname(out), 'Tables.lean')
+        if not os.path.exists(tout) or open(tout).read() != ttext:
+            open(tout, 'w').write(ttext)
     if out:
         old = open(out).read() if os.path.exists(out) else None
         if old != text:
